@@ -1,7 +1,7 @@
 """C05 - quantise puts every event on the grid and keeps every note well-formed (E1)."""
 import itertools
 
-from mc import core, lib
+from mc import core, hist, lib
 
 ENGINE = "E1-sweep"
 RULE = ("all well-formed note sets over the tick lattice (pairs over the full lattice, triples/quads around one "
@@ -9,7 +9,7 @@ RULE = ("all well-formed note sets over the tick lattice (pairs over the full la
         "distinct = distinct (steps, notes, events); non-trivial = some event moves or some note is dropped")
 ASSUMPTIONS = ["input sequences are well-formed (property precondition)",
                "tie-breaking between equidistant grid points and the choice of surviving note are not demanded"]
-REQUIRED_FLAGS = ["same_pitch_two_channels", "note_dropped", "event_moved", "isolated_note_checked",
+REQUIRED_FLAGS = ["after_history", "same_pitch_two_channels", "note_dropped", "event_moved", "isolated_note_checked",
                   "collapse_candidate", "non_note_event"]
 
 STEP_LISTS = [[4], [6], [8], [4, 6], [6, 4], [3, 4], [8, 12]]
@@ -50,6 +50,7 @@ def units(ctx):
             cell4 = _alpha(ctx, range(S - 1, S + 2), [1, 2, S])
             for i in range(len(cell4)):
                 yield ("quads", si, i)
+    yield from hist.hist_units()
 
 
 def _mk(notes):
@@ -58,6 +59,11 @@ def _mk(notes):
 
 
 def gen_cases(unit, ctx):
+    if unit[0] == "hist":
+        for h in hist.hist_of_unit(unit):
+            for steps in ([4], [6, 4], [8, 12], [120, 80]):
+                yield {"seed": unit[1], "build": unit[2], "hist": h, "steps": steps}
+        return
     quick = ctx["tier"] == "quick"
     kind, si = unit[0], unit[1]
     steps = STEP_LISTS[si]
@@ -143,9 +149,20 @@ def _match(outs, ins, S):
 
 def check_case(case, ctx):
     R = core.Res()
-    steps, notes, events = case["steps"], case["notes"], case["events"]
+    steps = case["steps"]
     S = max(steps)
-    s = lib.seq_abs(notes, events)
+    if "hist" in case:
+        live = hist.live_case(case, R, ctx["p"], *ctx["ch"], hp=ctx["p"] - 20)
+        if live is None:
+            return R
+        s, notes, events, _ = live
+        # identify notes by velocity in the oracle below: velocities must be distinct
+        if len({n[4] for n in notes}) < len(notes):
+            R.outcome = "history_duplicates_velocities"
+            return R
+    else:
+        notes, events = case["notes"], case["events"]
+        s = lib.seq_abs(notes, events)
     in_ev, _, _ = lib.view_abs(s)
     try:
         s.quantise(list(steps))
